@@ -20,6 +20,7 @@ RULE = ("history cases execute 5-12 calls in ONE worker process: propka.run.sing
         "layout case is non-trivial when a set of >= 5 groups is iterated; distinct = distinct case "
         "descriptors."
         " Inputs include MODEL files in which several ionizable residues exist in later models only; main-mode calls also carry -i and -p.")
+RULE = RULE + " Round 8: parameter files of a history are one file per content, one path rewritten between the calls, or a bare name resolved in the call's working directory."
 ASSUMPTIONS = ["pseudo-addresses are 16-aligned like CPython object addresses; unaligned values would create set "
                "orders that real addresses cannot produce"]
 TIMEOUT = {"quick": 3000, "thorough": 14400}
